@@ -163,7 +163,7 @@ def families_of(ctx, fams):
     return [(fid, devs) for fid, devs in fams if fid in of]
 
 
-def classify(ctx, path, fams, name):
+def classify(ctx, path, fams, name, pairs=True):
     """fams: list of (finding id, [deviation names]) - a finding may switch on several deviations of the spec
     (one root cause seen through several spec switches).
     Returns (result: dict unit -> 'strict' | frozenset(finding ids) | None, blocks, stats)."""
@@ -184,7 +184,7 @@ def classify(ctx, path, fams, name):
     fmap = dict(fams)
     ids = sorted(fmap)
     tries = [frozenset([f]) for f in ids]
-    if len(ids) > 1:
+    if len(ids) > 1 and (pairs or len(ids) == 2):
         tries += [frozenset(p) for p in itertools.combinations(ids, 2)]
     if len(ids) > 2:
         tries.append(frozenset(ids))
